@@ -107,11 +107,12 @@ class CacheStore(object):
 
     def _cache_is_valid(self, store_filename, filename):
         try:
-            store_mtime = os.stat(store_filename).st_mtime
+            store_mtime = os.stat(store_filename).st_mtime_ns
         except FileNotFoundError:
             return False
 
-        return store_mtime >= os.stat(filename).st_mtime
+        # An entry carries the mtime of the file it was made from, see store()
+        return store_mtime == os.stat(filename).st_mtime_ns
 
     def _remove_filename(self, filename):
         try:
@@ -129,7 +130,9 @@ class CacheStore(object):
                 continue
             self._remove_filename(os.path.join(self._directory, filename))
 
-    def store(self, filename, data):
+    def store(self, filename, data, source_mtime_ns):
+        """Store data, the result of parsing filename. source_mtime_ns is
+        the st_mtime_ns filename had BEFORE it was read."""
         store_filename = self._get_filename(filename)
         if store_filename is None:
             return
@@ -163,6 +166,13 @@ class CacheStore(object):
                 raise
 
         try:
+            # The entry records which state of filename it was made from.
+            # The time at which the entry is written says nothing about
+            # that: filename may have changed since it was read, may change
+            # within the granularity of the timestamps, or may be replaced
+            # by a file that carries an older mtime (a package installed
+            # with the build time of its files preserved).
+            os.utime(tmp_filename, ns=(source_mtime_ns, source_mtime_ns))
             os.replace(tmp_filename, store_filename)
         except (IOError, OSError) as e:
             # Permission denied, or the temporary file was removed by
@@ -187,8 +197,9 @@ class CacheStore(object):
         with fd:
             # Validate the file we actually opened, not whatever the path
             # names by now: a concurrent store may have renamed a fresh entry
-            # over it in the meantime.
-            if os.fstat(fd.fileno()).st_mtime < os.stat(filename).st_mtime:
+            # over it in the meantime. The entry is the parse of the file that
+            # had the mtime the entry carries, see store().
+            if os.fstat(fd.fileno()).st_mtime_ns != os.stat(filename).st_mtime_ns:
                 return None
             try:
                 data = pickle.load(fd)
